@@ -10,7 +10,21 @@ char gh_byte;            /* top[gh_k] before the call */
 size_t gh_start_off;     /* offset of os_top_object_start in its block before the call */
 struct _os_segment *gh_seg, *gh_prev;
 #include "objstack.c"
+/* C17 at contract level: what must hold of the object stack at the moment a memory request made on its behalf fails (the allocator's error
+   callback then leaves by longjmp and the owner later deletes the stack).  Only reachable in the sets run with a malloc that may fail. */
+os_t *verif_exit_os;
+static void verif_os_exit_check (void);
+#define VERIF_ALLOC_FAIL_HOOK() do { verif_os_exit_check (); __CPROVER_assume (0); } while (0)
 #include "alloc_model.h"
+static void verif_os_exit_check (void)
+{
+  if (verif_exit_os == NULL) return;
+  __CPROVER_assert (__CPROVER_r_ok (verif_exit_os->os_current_segment, sizeof (struct _os_segment)),
+                    "C17 exit assertion: when a memory request fails the object stack still owns its current segment (it can still be emptied or deleted)");
+  __CPROVER_assert (__CPROVER_same_object (verif_exit_os->os_top_object_start, verif_exit_os->os_current_segment)
+                    && __CPROVER_same_object (verif_exit_os->os_top_object_free, verif_exit_os->os_current_segment),
+                    "C17 exit assertion: when a memory request fails the top object still lies in the current segment");
+}
 #ifndef CAP
 #define CAP 64
 #endif
@@ -198,3 +212,44 @@ __CPROVER_ensures (gh_len <= 1 || os->os_top_object_start[gh_k] == gh_byte)     
 __CPROVER_ensures (str != NULL ==> OFF (os->os_top_object_free) <= OFF (os->os_boundary))
 ;
 void h_os_add_string (void) { GH (); HAVOC (gh_slen); os_t *os; const char *s; _OS_add_string_function (os, s); if (s) VACUITY_CANARY_N ("string"); else VACUITY_CANARY_N ("NULL"); }
+
+/* ---- OS.expand.fail (C17): _OS_expand_memory with a memory request that may fail; plain harness, stack built here so that the exit check can reach it ---- */
+static char verif_allocator_dummy;
+static void build_os (os_t *o, size_t L, struct _os_segment *prev)
+{
+  struct _os_segment *seg = malloc (L + HDR); size_t st, fr;
+  __CPROVER_assume (seg != NULL);
+  seg->os_previous_segment = prev;
+  HAVOC (st); HAVOC (fr); __CPROVER_assume (st % _OS_ALIGNMENT == 0 && st <= L && st <= fr && fr <= L);
+  o->os_alloc = (YaepAllocator *) &verif_allocator_dummy; o->os_current_segment = seg;
+  o->os_top_object_start = (char *) seg + PAY + st; o->os_top_object_free = (char *) seg + PAY + fr; o->os_boundary = (char *) seg + PAY + L;
+}
+void h_os_expand_fail (void)
+{
+  os_t o; size_t L, n; struct _os_segment *prev = NULL;
+  HAVOC (L); HAVOC (n); __CPROVER_assume (L >= 1 && L <= CAP && n <= CAP);
+  { _Bool chained; HAVOC (chained); if (chained) { prev = malloc (HDR + 8); __CPROVER_assume (prev != NULL); prev->os_previous_segment = NULL; } }
+  HAVOC (o.initial_segment_length);
+  build_os (&o, L, prev);
+  verif_exit_os = &o;
+  _OS_expand_memory (&o, n);
+  VACUITY_CANARY_N ("request granted");
+}
+/* ---- OS.empty (C19): OS_EMPTY keeps the FIRST segment - the one the initial length describes - and releases the later ones; bounded: <= 3 segments ---- */
+void h_os_empty (void)
+{
+  os_t o; size_t L0, L1, L2; int nseg; struct _os_segment *first, *s1 = NULL, *s2 = NULL;
+  HAVOC (L0); HAVOC (L1); HAVOC (L2); HAVOC (nseg);
+  __CPROVER_assume (L0 >= 1 && L0 <= CAP && L1 >= 1 && L1 <= CAP && L2 >= 1 && L2 <= CAP && nseg >= 1 && nseg <= 3);
+  first = malloc (L0 + HDR); __CPROVER_assume (first != NULL); first->os_previous_segment = NULL;
+  o.initial_segment_length = L0;
+  if (nseg == 1) build_os (&o, L0, NULL), free (o.os_current_segment), o.os_current_segment = first, o.os_top_object_start = o.os_top_object_free = (char *) first + PAY, o.os_boundary = (char *) first + PAY + L0;
+  else if (nseg == 2) build_os (&o, L1, first);
+  else { s1 = malloc (L1 + HDR); __CPROVER_assume (s1 != NULL); s1->os_previous_segment = first; build_os (&o, L2, s1); }
+  _OS_empty_function (&o);
+  __CPROVER_assert (o.os_current_segment == first, "OS_EMPTY keeps the first segment of the stack");
+  __CPROVER_assert (__CPROVER_r_ok (first, L0 + HDR), "the kept segment is live and has the initial length");
+  __CPROVER_assert (o.os_top_object_start == (char *) first + PAY && o.os_top_object_free == o.os_top_object_start, "one empty top object at the first payload byte");
+  __CPROVER_assert (o.os_boundary == (char *) first + PAY + L0, "the boundary is the end of the kept segment's payload: appended bytes stay inside the block");
+  if (nseg == 3) VACUITY_CANARY_N ("three segments"); else if (nseg == 2) VACUITY_CANARY_N ("two segments"); else VACUITY_CANARY_N ("one segment");
+}
